@@ -9,6 +9,7 @@ import (
 	"path/filepath"
 	"sort"
 	"strings"
+	"sync"
 
 	"golang.org/x/tools/go/packages"
 	"golang.org/x/tools/go/ssa"
@@ -200,4 +201,29 @@ func (P *Program) lookupVar(fn *ssa.Function, name string, pos token.Pos) types.
 	}
 	walk(scope)
 	return found
+}
+
+var fileLines = map[string][]string{}
+var fileLinesMu sync.Mutex
+
+// lineText returns the trimmed source text of the line containing pos ("" if unknown).
+func (P *Program) lineText(pos token.Pos) string {
+	if !pos.IsValid() {
+		return ""
+	}
+	p := P.Fset.Position(pos)
+	fileLinesMu.Lock()
+	defer fileLinesMu.Unlock()
+	ls, ok := fileLines[p.Filename]
+	if !ok {
+		data, err := os.ReadFile(p.Filename)
+		if err == nil {
+			ls = strings.Split(string(data), "\n")
+		}
+		fileLines[p.Filename] = ls
+	}
+	if p.Line-1 < len(ls) && p.Line >= 1 {
+		return strings.TrimSpace(ls[p.Line-1])
+	}
+	return ""
 }
